@@ -12,8 +12,7 @@ use warp_core::{
 
 use crate::uni::{group_of_slot, Ctx, Universe};
 use crate::world::{
-    comp_name, debug_digest, fmt_val, fp_diff, fp_world, lane_key_of, lane_of_key, AState, Group,
-    SlotK,
+    comp_name, debug_digest, fmt_val, fp_diff, fp_world, lane_key_of, lane_of_key, Group, SlotK,
 };
 
 pub fn policy_for(plural: bool) -> SettlementPolicy {
@@ -688,6 +687,5 @@ impl Universe {
                 "every entry imported onto an unmoved parent, yet parent state != strand tip state",
             );
         }
-        let _ = AState::default();
     }
 }
